@@ -135,6 +135,13 @@ func (w *w7World) Gen(rng *rand.Rand, property, tier string) (any, simrt.Sched) 
 		// the API kicks whatever connections exist at that moment
 		b.Actors = append(b.Actors, w7Actor{Kind: "kick", StartMs: int64(500 + rng.Intn(4000)), Ops: []w7Op{{Op: "kick"}}})
 	}
+	if property == "C40" || rng.Intn(4) == 0 {
+		// API pollers: list (and get) the connections while they come and go
+		for i, n := 0, 1+rng.Intn(2); i < n; i++ {
+			b.Actors = append(b.Actors, w7Actor{Kind: "api", StartMs: int64(rng.Intn(500)),
+				Ops: []w7Op{{Op: "list", N: int64(5 + rng.Intn(30)), Ms: []int64{50, 200, 500}[rng.Intn(3)]}}})
+		}
+	}
 	sched := simrt.DefaultSched(rng)
 	sched.MaxSteps = 400000
 	sched.Focus = []string{"servers/rtmp/"}
@@ -546,6 +553,22 @@ func (h *w7Harness) runReader(idx int, a *w7Actor) {
 	}
 }
 
+func (h *w7Harness) runAPI(a *w7Actor) {
+	time.Sleep(time.Duration(a.StartMs) * time.Millisecond)
+	for _, op := range a.Ops {
+		for n := int64(0); n < op.N && !simrt.Aborted(); n++ {
+			list, err := h.srv.APIConnsList()
+			if err == nil {
+				simrt.Rec("api.list", "", "", int64(len(list.Items)), 0, 0)
+				for _, it := range list.Items {
+					h.srv.APIConnsGet(it.ID) //nolint:errcheck
+				}
+			}
+			time.Sleep(time.Duration(op.Ms) * time.Millisecond)
+		}
+	}
+}
+
 func (h *w7Harness) runKick(a *w7Actor) {
 	time.Sleep(time.Duration(a.StartMs) * time.Millisecond)
 	list, err := h.srv.APIConnsList()
@@ -626,6 +649,8 @@ func (h *w7Harness) main() {
 				h.runReader(i, a)
 			case "kick":
 				h.runKick(a)
+			case "api":
+				h.runAPI(a)
 			}
 		}()
 	}
